@@ -104,11 +104,54 @@ end Dev
 
 /-! ### allocator (dev/alloc.rs) -/
 
-/-- `ensure_refblock_offset(cls)`; reftable growth (`grow_reftable`) is outside
-    this model: it is reported as `Err unsupported` and covered by C12. -/
-def ensureRefblock (off : Nat) : M Unit := fun d =>
+/-- `free_clusters(host_cluster, count)`; `decrement().unwrap()` panics on 0. -/
+def freeClusters : Nat → Nat → Bool → M Unit
+  | _, 0, _ => M.pure ()
+  | host, n + 1, firstZero => fun d =>
+    let i := d.info
+    let c := host / i.clusterSize
+    let rtIdx := Host.rtIndex i host
+    let e := if rtIdx < d.rtLen then d.rt.get rtIdx else 0#64
+    if RT.isZero e then (d, .err .other) else     -- no refblock: outside the modelled (valid-image) domain
+    let v := d.rc.get c
+    if v = 0 then (d, .panic "alloc.rs:free_clusters:decrement-unwrap") else
+    let d1 := { d with rc := d.rc.set c (v - 1), needFlush := true }
+    let (d2, fz) := if firstZero ∧ v - 1 = 0 then ({ d1 with hint := min d1.hint host }, false) else (d1, firstZero)
+    freeClusters (host + i.clusterSize) n fz d2
+
+/-- `RefTable::clone_and_grow(rt_index, rt_clusters, cluster_size)` followed, when the
+    table has to move, by `grow_reftable`: the new table (at least one cluster bigger
+    than the on-disk one, covering `rtIdx`) and a new refblock that counts itself and
+    the new table are placed at the start of the first host region the old table does
+    not cover; the header is switched.  Returns the old table's clusters, which the
+    caller releases.  (What is written when, and the syncs in between, are the subject
+    of the crash checks, not of this view model.) -/
+def growReftable (rtIdx : Nat) : M (Option (Nat × Nat)) := fun d =>
   let i := d.info
-  let rtIdx := Host.rtIndex i off
+  let cs := i.clusterSize
+  let ramSize := d.rtLen * 8
+  let diskSize := d.hdrRtClusters * cs
+  let needed := (rtIdx + 1) * 8
+  if ramSize < diskSize ∧ needed ≤ diskSize then
+    -- the table in ram did not reach the end of the table on disk: nothing moves
+    ({ d with rtLen := diskSize / 8 }, .ok none)
+  else
+    let newSize := max ((needed + cs - 1) / cs * cs) (diskSize + cs)
+    let newCl := newSize / cs
+    if newCl ≥ i.rbEntries - 1 then (d, .err .unsupported) else
+    if newCl + 1 > i.rbSliceEntries then (d, .err .unsupported) else
+    let r := d.rtLen * i.rbEntries * cs
+    let c0 := r / cs
+    let rc := (List.range (newCl + 1)).foldl (fun rc k => rc.set (c0 + k) 1) d.rc
+    let oldCl := (ramSize + cs - 1) / cs
+    ({ d with rc := rc, rt := d.rt.set d.rtLen (BitVec.ofNat 64 r), rtLen := newSize / 8,
+              hdrRtOff := r + cs, hdrRtClusters := newCl, needFlush := true },
+     .ok (some (d.hdrRtOff, oldCl)))
+
+/-- the part of `ensure_refblock_offset` after the bounds check: the entry exists, or a
+    new refblock is put at the start of the region it covers -/
+def ensureRefblockIn (rtIdx : Nat) : M Unit := fun d =>
+  let i := d.info
   let e := if rtIdx < d.rtLen then d.rt.get rtIdx else 0#64
   if ¬ RT.isZero e then (d, .ok ())
   else if ¬ (rtIdx < d.rtLen) then (d, .err .unsupported)
@@ -117,6 +160,24 @@ def ensureRefblock (off : Nat) : M Unit := fun d =>
     ({ d with rt := d.rt.set rtIdx (BitVec.ofNat 64 rbOff),
               rc := d.rc.set (rbOff / i.clusterSize) 1,
               needFlush := true }, .ok ())
+
+/-- `ensure_refblock_offset(cls)`: when the reftable does not reach the index it is
+    grown first (`growReftable`), and the old table's clusters are released at the end -/
+def ensureRefblock (off : Nat) : M Unit := fun d =>
+  let i := d.info
+  let rtIdx := Host.rtIndex i off
+  if rtIdx < d.rtLen then ensureRefblockIn rtIdx d
+  else
+    match growReftable rtIdx d with
+    | (d1, .ok old) =>
+      match ensureRefblockIn rtIdx d1 with
+      | (d2, .ok ()) =>
+        match old with
+        | some (o, n) => freeClusters o n true d2
+        | none => (d2, .ok ())
+      | r => r
+    | (d1, .err x) => (d1, .err x)
+    | (d1, .panic p) => (d1, .panic p)
 
 /-- `alloc_range(s, e)` on the slice whose first cluster is `c0`: increment each
     entry; `__set` refuses values that do not fit the width. -/
@@ -149,21 +210,6 @@ def tryAllocFromRbSlice (off count : Nat) (fixed : Bool) : M (Option (Nat × Nat
       | (d', .ok ()) => ({ d' with needFlush := true }, .ok (some (Host.clusterOffFromSlice i off s, e - s)))
       | (d', .err x) => (d', .err x)
       | (d', .panic p) => (d', .panic p)
-
-/-- `free_clusters(host_cluster, count)`; `decrement().unwrap()` panics on 0. -/
-def freeClusters : Nat → Nat → Bool → M Unit
-  | _, 0, _ => M.pure ()
-  | host, n + 1, firstZero => fun d =>
-    let i := d.info
-    let c := host / i.clusterSize
-    let rtIdx := Host.rtIndex i host
-    let e := if rtIdx < d.rtLen then d.rt.get rtIdx else 0#64
-    if RT.isZero e then (d, .err .other) else     -- no refblock: outside the modelled (valid-image) domain
-    let v := d.rc.get c
-    if v = 0 then (d, .panic "alloc.rs:free_clusters:decrement-unwrap") else
-    let d1 := { d with rc := d.rc.set c (v - 1), needFlush := true }
-    let (d2, fz) := if firstZero ∧ v - 1 = 0 then ({ d1 with hint := min d1.hint host }, false) else (d1, firstZero)
-    freeClusters (host + i.clusterSize) n fz d2
 
 /-- the `while count > 0 && host_cluster < rb_host_end` loop of `try_allocate_from` -/
 def tryAllocateLoop (rbEnd allocCnt : Nat) : Nat → Nat → Nat → Nat → Nat → M (Option (Nat × Nat))
